@@ -157,6 +157,9 @@ def tiny_gap_tier(draw):
 @st.composite
 def series_for(draw, times, style):
     cand = list(times) + [(x + y) / 2 for x, y in zip(times, times[1:])]
+    if style != "grid":
+        # one unit in the last place before / after a boundary: outside is outside
+        cand += [math.nextafter(t, math.inf) for t in times[:6]] + [math.nextafter(t, -math.inf) for t in times[:6] if t > 0]
     pick = st.one_of(st.sampled_from(cand) if cand else gen.time_of(style), gen.time_of(style))
     n = draw(st.integers(0, 8))
     rows = [[draw(pick), i] for i in range(n)]
